@@ -60,6 +60,40 @@ def concatenate_init(ctx):
         ctx.control("C08/Concatenate.__init__/control/wrong_axis", SymTuple.of(ok[0].value.shape).s == z3.Concat(z3.Unit(s0[0] + s1[0]), sub(s0, 1, r)), ok[0].cond + [valid_axis, r >= 2], props, fn=q + ".__init__")
 
 
+@family("shapes/Concatenate.__init__[k=3]", ["C08", "C13"])
+def concatenate_init3(ctx):
+    """three children: the split points handed to jnp.array_split are the CUMULATIVE sizes along the axis (T3: array_split(x, idxs)
+    cuts before each index), the declared size along the axis is the sum of the three"""
+    it = ctx.interp
+    q = "flowjax.bijections.concatenate.Concatenate"
+    cls = it.repo_class(q)
+    s0, s1, s2 = Seq("s0"), Seq("s1"), Seq("s2")
+    a = z3.Int("axis")
+    r = z3.Length(s0)
+    props = ["C08", "C13"]
+    kids = [AbsBij(z3.Const(f"b{i}", BIJ), shape=SymTuple(s)) for i, s in enumerate((s0, s1, s2))]
+    paths = it.explore(lambda: cls(kids, SV(a)))
+    ok, bad = by_outcome(paths)
+    valid_axis = z3.And(a >= -r, a < r, r >= 1)
+    ap = norm_axis(a, r)
+    compat = lambda s: z3.And(z3.Length(s) == r, sub(s0, 0, ap) == sub(s, 0, ap), sub(s0, ap + 1, r) == sub(s, ap + 1, r))  # noqa: E731
+    compatible = z3.And(compat(s1), compat(s2))
+    spec = z3.Concat(sub(s0, 0, ap), z3.Unit(s0[ap] + s1[ap] + s2[ap]), sub(s0, ap + 1, r))
+    rp = dict(kind="shapes", cls="Concatenate", vars=dict(axis=a, s0=s0, s1=s1))
+    ctx.oblige("C08/Concatenate.__init__[k=3]/struct/has_success_path", len(ok) >= 1, [], props, kind="struct", fn=q + ".__init__")
+    for i, p in enumerate(ok):
+        o = p.value
+        ctx.oblige(f"C08/Concatenate.__init__[k=3]/post/shape#{i}", SymTuple.of(o.shape).s == spec, p.cond + [valid_axis], props, fn=q + ".__init__", replay=rp)
+        ctx.oblige(f"C13/Concatenate.__init__[k=3]/post/accepted_only_if_compatible#{i}", compatible, p.cond + [valid_axis], props, fn=q + ".__init__", replay=rp)
+        sp = list(o.split_idxs) if isinstance(o.split_idxs, (tuple, list)) else None
+        ctx.oblige(f"C08/Concatenate.__init__[k=3]/struct/two_split_points#{i}", sp is not None and len(sp) == 2, [], props, kind="applicability", fn=q + ".__init__")
+        if sp is not None and len(sp) == 2:
+            ctx.oblige(f"C08/Concatenate.__init__[k=3]/post/split_points_are_cumulative_sizes#{i}", z3.And(lift(sp[0]) == s0[ap], lift(sp[1]) == s0[ap] + s1[ap]), p.cond + [valid_axis], props, fn=q + ".__init__", replay=rp,
+                       note="child j then receives exactly its own size[axis] entries")
+    for i, p in enumerate(bad):
+        ctx.oblige(f"C13/Concatenate.__init__[k=3]/post/raises_only_if#{i}", z3.Or(z3.Not(valid_axis), z3.Not(compatible)), p.cond, props, fn=q + ".__init__", replay=rp, note=f"raises {p.value.exc}")
+
+
 @family("shapes/Stack.__init__", ["C08", "C13"])
 def stack_init(ctx):
     it = ctx.interp
